@@ -1,0 +1,31 @@
+//go:build verif
+
+package crt
+
+// Contracts for the deductive checker in /verif (comment-only; compiled only under the verif tag).
+//
+// natv / mval are the ghost values of *numct.Nat / *numct.Modulus (see /verif/specs/numct.spec).
+// Recombine computes Garner's formula without truncation whenever the announced capacity covers p*q.
+
+//@ pure func garner(mp Int, mq Int, p Int, q Int, qinv Int) Int = mq + q * ((((mp - mq) % p) * qinv) % p)
+
+//@ func (*Params).Recombine
+//@   property C17, C16
+//@   uses modfacts
+//@   requires mval(prm.P) > 0 && natv(prm.QNat) > 0 && natv(prm.QInv) >= 0
+//@   requires 0 <= natv(mq) && natv(mq) < natv(prm.QNat) && natv(mp) >= 0
+//@   requires prm.Cap >= 0 && twopow(prm.Cap) >= mval(prm.P) * natv(prm.QNat)
+//@   ensures natv(result) == garner(old(natv(mp)), old(natv(mq)), mval(prm.P), natv(prm.QNat), natv(prm.QInv))
+//@   ensures 0 <= natv(result) && natv(result) < mval(prm.P) * natv(prm.QNat)
+
+//@   assert after "prm.P.ModMul(h, h, prm.QInv)": 0 <= natv(h) && natv(h) < mval(prm.P)
+//@   assert before "m.MulCap(h, prm.QNat, prm.Cap)": natv(h) * natv(prm.QNat) <= (mval(prm.P) - 1) * natv(prm.QNat) && 0 <= natv(h) * natv(prm.QNat)
+//@   assert before "m.MulCap(h, prm.QNat, prm.Cap)": natv(h) * natv(prm.QNat) + natv(mq) < mval(prm.P) * natv(prm.QNat)
+//@   assert after "m.MulCap(h, prm.QNat, prm.Cap)": natv(m) == natv(h) * natv(prm.QNat)
+//@   assert after "m.AddCap(m, mq, prm.Cap)": natv(m) == natv(h) * natv(prm.QNat) + natv(mq)
+
+// Garner's lemma (pure arithmetic): with qinv * q = 1 (mod p) the recombined value has the right residues.
+// Proved in Lean 4 / Mathlib: /verif/lean/Garner.lean (theorem garner_residues); imported here as an axiom.
+//@ theory garner
+//@ axiom GarnerResidues: forall mp, mq, p, q, qinv Int :: p > 0 && q > 0 && 0 <= mq && mq < q && (qinv * q) % p == 1 ==> garner(mp, mq, p, q, qinv) % q == mq && garner(mp, mq, p, q, qinv) % p == mp % p
+//@ end
